@@ -69,7 +69,7 @@ let enc_acc (a : (coq_N * coq_N) list) : string =
 
 (* ------------------------------------------------------------------ state *)
 type st = Raw of M.rstate | Comp of P.cstate
-type ctx = { mutable xo : coq_N; mutable cache : (coq_N * coq_N list) option; mutable sz : int;
+type ctx = { mutable xo : coq_N; mutable cache : (coq_N * coq_N list) option; mutable sz : int; mutable rl : int;
              mutable owner : char; eager : bool; mutable poison : coq_N option }
 
 let kv (toks : string list) : (string * string) list =
@@ -185,7 +185,14 @@ let exec_read (ctx : ctx) (st : st) (tok : string) : string =
         | M.ROk d -> fs @ L.map (fun v -> M.Yield v) (C.cached_read_into d f t)
         | M.RGarbage -> fs @ [M.Garb]
         | M.RPanic -> fs @ [M.Boom]) } in
-      show_script (C.cursor_script rv C.cursor_new (parse_script p.(1)))
+      let shown = show_script (C.cursor_script rv C.cursor_new (parse_script p.(1))) in
+      (* the harness prints `oob` for every read through a wrapper whose cache entry was filled from outside
+         the region, whether or not the script reaches the data (positions only) *)
+      let hit_poisoned = ctx.poison = Some vlen && (match ctx.cache with Some (l, _) -> l = vlen | None -> false) in
+      let prefix k = S.length shown >= k && (S.sub shown 0 k = "hang" || S.sub shown 0 k = "pani") in
+      if hit_poisoned && not (prefix 4) then
+        (match S.index_opt shown '@' with Some i -> "garbage " ^ S.sub shown i (S.length shown - i) | None -> shown)
+      else shown
     end else if cached && m = "la" && vlen = N0 then
       (* collect_last on an empty vector returns before it reaches the wrapper's read path: the cache is not touched *)
       "o none @ -"
@@ -269,19 +276,37 @@ let exec_read (ctx : ctx) (st : st) (tok : string) : string =
     end in
   (* a result computed from bytes outside the region is not predictable: both sides print `oob` *)
   match S.index_opt result '@' with
-  | Some i when S.length result > 0 && S.sub result 0 (min 7 (S.length result)) = "garbage" -> "oob " ^ S.sub result i (S.length result - i)
+  | Some _ when S.length result > 0 && S.sub result 0 (min 7 (S.length result)) = "garbage" -> "oob @ *"
+  | Some i when S.length result >= 4 && S.sub result 0 4 <> "pani" && S.sub result 0 4 <> "hang" ->
+    (* the harness prints `oob` as soon as ONE access of the read extends outside the region, even when the values
+       consumed before an early exit all came from inside (the access is reported by the C20 oracle) *)
+    let accs = S.trim (S.sub result (i + 1) (S.length result - i - 1)) in
+    let outside a =
+      match S.split_on_char ':' a with
+      | [o; l] ->
+        (try
+           let o = int_of_string o in
+           let l = (match S.split_on_char '*' l with
+               | [x] -> int_of_string x
+               | [x; y] -> int_of_string x * int_of_string y
+               | _ -> 0) in
+           o < 0 || o + l > ctx.rl
+         with _ -> false)
+      | _ -> false in
+    if accs <> "-" && accs <> "*" && L.exists outside (S.split_on_char ',' accs) then "oob @ *" else result
   | _ -> result
 
 let exec (toks : string list) : string list =
   match toks with
   | kind :: _ssc :: rest ->
-    let ctx = { xo = n_of_z (Z.shift_left Z.one 30); cache = None; sz = 8; owner = ' '; eager = (kind.[0] = 'e'); poison = None } in
+    let ctx = { xo = n_of_z (Z.shift_left Z.one 30); cache = None; sz = 8; rl = max_int; owner = ' '; eager = (kind.[0] = 'e'); poison = None } in
     let out = ref [] in
     let mode = ref ' ' and dump = ref [] and st = ref None in
     let finish_dump () =
       if !dump <> [] && !st = None then begin
         let d = kv (L.rev !dump) in
         ctx.sz <- int_of_string (L.assoc "sz" d);
+        ctx.rl <- (try int_of_string (L.assoc "rl" d) with _ -> max_int);
         let s = build_state kind d ctx.xo in
         st := Some s;
         let wf = match s with Raw c -> M.wf_b c | Comp c -> P.cwf_b c in
